@@ -15,6 +15,10 @@ def build_rtprops(release=False):
 
 def rt(run):
     b = build_rtprops(release=(run.tier == "thorough"))
+    if not run.replay:
+        # regression tier: saved minimal cases of earlier findings, replayed without any RNG
+        for f in common.saved_replays(run.prop):
+            run.run_harness(b, timeout=300, label="regression:" + os.path.basename(f), replay_file=f)
     run.run_harness(b, timeout=7200)
 
 
@@ -22,4 +26,8 @@ PROPS = {
     "C10": rt,
     "C11": rt,
     "C12": rt,
+    "C13": rt,
+    "C14": rt,
+    "C15": rt,
+    "C16": rt,
 }
